@@ -263,11 +263,12 @@ Walk(f, b, hi, skipped, acc, scanned, loaded, chunk, limit, uc) ==
        IF src = Missing THEN [err |-> TRUE, ev |-> <<>>, tok |-> NoTok, loaded |-> loaded]
        ELSE LET lo == IF IsMatchAll(f) /\ limit = 0 /\ b < Base
                       THEN (IF Base <= wend THEN Base ELSE wend + 1) ELSE b
-                cands == IF IsMatchAll(f) THEN lo..wend
+                all == IsMatchAll(f)
+                cands == IF all THEN {}
                          ELSE {c \in {x[1] : x \in src} : c >= b /\ c <= wend /\ MayMatch(f, Col(src, c))} IN
-            IF cands = {}
+            IF (all /\ lo > wend) \/ (~all /\ cands = {})
             THEN Walk(f, wend + 1, hi, skipped, acc, scanned, loaded \cup {w}, chunk, limit, uc)
-            ELSE LET c == Min(cands) IN
+            ELSE LET c == IF all THEN lo ELSE Min(cands) IN
                  IF limit > 0 /\ scanned + 1 > limit
                  THEN [err |-> FALSE, ev |-> acc, tok |-> [b |-> c, p |-> 0], loaded |-> loaded \cup {w}]
                  ELSE LET pb == ProcBlock(f, c, Flat(BlockAt(c)), 0, skipped, acc, chunk) IN
